@@ -65,8 +65,11 @@ def generate(rng, tier, i):
     nmov = rng.randint(4, 9)
     nfix = rng.choice([0, 0, 1, 2])
     mods = {}
+    big = rng.randrange(nmov) if rng.random() < 0.15 else -1
     for k in range(nmov):
         r = rng.uniform(0.02, 0.3) * m if rng.random() < 0.8 else 0.3 * m
+        if k == big:
+            r = rng.uniform(0.46, 0.499) * m      # the disc still fits, with almost no room to move along the shorter side
         area = math.pi * r * r * 0.999
         if rng.random() < 0.65:
             mods[f"S{k}"] = {"area": float(f"{area:.6g}")}
